@@ -17,6 +17,7 @@ def run(ctx):
     r.rule_text = 'E1 panic-site inventory over the relative path parser'
     run_e1(ctx, ENTRY)
     flag_tables(ctx)
+    escape_automaton(ctx)
     r.floor('flag-table-agreement', 'notation_tokens', r.counts.get('notation_tokens', 0), 10)
     r.floor('E1-panic', 'reachable_bodies', r.counts.get('reachable_bodies', 0), 8)
 
@@ -101,3 +102,56 @@ def flag_tables(ctx, rule='flag-table-agreement'):
     else:
         r.ok(rule, 'RelativePathElement', "'/', '.', '#', '!' are printed for exactly the (reference type, include_subtypes, is_inverse) triples they are parsed as", loc=pb.loc)
     r.count('notation_tokens', len(printer) + len(parser))
+
+
+def escape_automaton(ctx, rule='escape-automaton'):
+    """the tokenizer of RelativePath::from_str handles `&` as a one-character escape: the flag escaped_char is only ever
+    assigned constants - true exactly under (not escaped, current char == '&'), false when the escaped character has been
+    consumed - and an element boundary is only processed while not escaped.  (The printer escapes every reserved
+    character, '&' included, with one '&'.)"""
+    import re
+    from ..facts import fmt_lit, fmt_sym
+    r, db = ctx.r, ctx.db
+    bs = db.find_bodies(r'relative_path::RelativePath>::from_str$')
+    if not bs:
+        r.lost(rule, 'from_str', 'RelativePath::from_str not found'); return
+    b = bs[0]; F = ctx.facts(b)
+    e = b.local_by_name('escaped_char')
+    if not e:
+        r.lost(rule, 'escaped_char', 'state variable escaped_char not found'); return
+    probs = []; n = 0
+    sets_true = sets_false_after_escape = 0
+    for d in b.defs().get(e[0], []):
+        n += 1
+        if d[0] != 'stmt' or not (d[3][0] == 'use' and d[3][1][0] == 'k'):
+            probs.append('escaped_char is assigned a computed value (%s)' % (fmt_sym(b, F.sym_rvalue(d[3], 0, d[1]))[:60] if d[0] == 'stmt' else d[2].callee))
+            continue
+        val = d[3][1][1] in ('1', 'true')
+        lits = [fmt_lit(b, l) for l, ed in F.literals_at(d[1], d[2])]
+        in_loop = any(x.startswith('Iterator::next(') and x.endswith('is Some') for x in lits)
+        if val:
+            if any(re.match(r'^escaped_char\(_\d+\) == False$', x) for x in lits) and any(re.search(r'@Some\.0 eq 38$', x) for x in lits):
+                sets_true += 1
+            else:
+                probs.append('escaped_char becomes true under %s, not under (not escaped, char == \'&\')' % [x[-40:] for x in lits])
+        elif in_loop:
+            if any(re.match(r'^escaped_char\(_\d+\) == True$', x) for x in lits):
+                sets_false_after_escape += 1
+            else:
+                probs.append('escaped_char is cleared under %s' % [x[-40:] for x in lits])
+    if not sets_true or not sets_false_after_escape:
+        probs.append('missing transition (set on &: %d, cleared after the escaped char: %d)' % (sets_true, sets_false_after_escape))
+    # element boundaries inside the loop only while not escaped
+    for c in b.calls():
+        if c.callee_raw.endswith('RelativePathElement>::from_str') or c.callee.endswith('relative_path_element::RelativePathElement>::from_str'):
+            lits = [fmt_lit(b, l) for l, ed in F.literals_at(c.bb)]
+            if any(x.startswith('Iterator::next(') and x.endswith('is Some') for x in lits):
+                n += 1
+                if not any(re.match(r'^escaped_char\(_\d+\) == False$', x) for x in lits):
+                    probs.append('an element boundary is processed while the current character is escaped')
+    if probs:
+        r.fail(rule, 'tokenizer', 'the escape handling of RelativePath::from_str is not the one-character `&` escape the printer writes: ' + '; '.join(probs[:2]), loc=b.loc)
+    else:
+        r.ok(rule, 'tokenizer', 'escaped_char: set on an unescaped \'&\', cleared after the next character, boundaries only while unescaped', loc=b.loc)
+    r.count('escape_sites', n)
+    r.floor(rule, 'escape_sites', n, 4)
